@@ -20,6 +20,8 @@ mod harnesses {
     scalar!(k_sl_elem, ob_sl_elem, 3);
     scalar!(k_heading_elem, ob_heading_elem, 2);
     scalar!(k_nan_rejected, ob_nan_rejected, 3);
+    scalar!(k_sparam_mass, ob_sparam_mass, 1);
+    scalar!(k_sparam_axle, ob_sparam_axle, 1);
     macro_rules! slice { ($name:ident, $ob:ident, $n:expr) => {
         #[kani::proof]
         #[kani::unwind(5)]
